@@ -67,9 +67,9 @@ func (w *cWorld) log(kind string, pos int) {
 type cDB struct{ w *cWorld }
 
 type cTx struct {
-	w       *cWorld
-	sets    map[string][]byte
-	done    bool
+	w    *cWorld
+	sets map[string][]byte
+	done bool
 }
 
 type cTxKey struct{}
